@@ -6,6 +6,7 @@
 namespace libphysica
 {
 template bool Lists_Equal<double>(const std::vector<double>&, const std::vector<double>&);
+template bool Lists_Equal<double>(const std::vector<std::vector<double>>&, const std::vector<std::vector<double>>&);
 template std::vector<double> Combine_Lists<double>(const std::vector<double>&, const std::vector<double>&);
 template std::vector<std::vector<double>> Transpose_Lists<double>(const std::vector<std::vector<double>>&);
 template std::vector<std::vector<double>> Transpose_Lists<double>(const std::vector<double>&, const std::vector<double>&);
